@@ -195,8 +195,11 @@ impl <T: ArrayElement> ArrayIndexing<T> for Array<T> {
                 else { self.shape[1..].to_vec() };
 
             let items: usize = new_shape.iter().product();
-            let stride = items / new_shape[0];
             let start_index = new_shape[0] * range.start;
+            if items == 0 || start_index + items > self.elements.len() {
+                return Err(ArrayError::OutOfBounds { value: "slice range" })
+            }
+            let stride = items / new_shape[0];
 
             let mut new_elements = Vec::with_capacity(items);
             (start_index..start_index + items).step_by(stride).for_each(|idx| {
